@@ -609,10 +609,13 @@ func lastReturnStrictLess(info *types.Info, call *ast.CallExpr) (bool, string) {
 		return false, "comparator does not end with a return"
 	}
 	be, ok := core.Unparen(rs.Results[0]).(*ast.BinaryExpr)
-	if !ok || be.Op != token.LSS {
+	if !ok || (be.Op != token.LSS && be.Op != token.GTR) {
 		return false, "final comparison is " + core.ExprStr(rs.Results[0])
 	}
 	l, rr := core.ExprStr(be.X), core.ExprStr(be.Y)
+	if be.Op == token.GTR {
+		l, rr = rr, l // `b > a` is `a < b`
+	}
 	if !strings.Contains(l, "["+names[0]+"]") || !strings.Contains(rr, "["+names[1]+"]") || strings.Replace(l, "["+names[0]+"]", "[·]", 1) != strings.Replace(rr, "["+names[1]+"]", "[·]", 1) {
 		return false, "final comparison is " + l + " < " + rr
 	}
